@@ -1,0 +1,41 @@
+//go:build verif
+// +build verif
+
+package leveldb
+
+// Read-cut event points (property C05 of the external verification harness): one-line verifEvent calls
+// inserted at the atomic steps of the four publication protocols.  Each call sits INSIDE the critical section
+// (or directly after the atomic operation) it reports, on the goroutine that performs the step, so that the
+// order in which a process-wide hook sees events of one synchronisation domain is the order in which the
+// steps took effect:
+//
+//	snapsMu domain   500, 501          memMu domain   502, 505, 506          vmu domain   503, 504
+//	db.seq (atomic)  508, 509 report the new value after the store; 500 reports the value it loaded
+//
+// The call sites use the numeric kinds (the constants below exist only with the verif tag).
+const (
+	// VerifEvCutRSeq: acquireSnapshot, under snapsMu, after loading db.seq and before registering it:
+	// a = the sequence number the reader fixed.
+	VerifEvCutRSeq = 500
+	// VerifEvCutRelease: releaseSnapshot, under snapsMu: a = the sequence number being released.
+	VerifEvCutRelease = 501
+	// VerifEvCutRMems: getMems, under memMu.RLock, after taking the references: a = journal file number of the
+	// live memdb, b = journal file number of the frozen memdb (0 = none).
+	VerifEvCutRMems = 502
+	// VerifEvCutRVersion: session.version(), under vmu, after taking the reference: a = id of the version.
+	VerifEvCutRVersion = 503
+	// VerifEvCutSetVersion: session.setVersion, under vmu, after the new version became current: a = its id.
+	VerifEvCutSetVersion = 504
+	// VerifEvCutRotate: newMem, under memMu, after db.frozenMem/db.mem were switched: a = journal file number
+	// of the new live memdb, b = journal file number of the memdb that became frozen (0 = none).
+	VerifEvCutRotate = 505
+	// VerifEvCutDrop: dropFrozenMem, under memMu, before the frozen memdb is forgotten: a = its journal number.
+	VerifEvCutDrop = 506
+	// VerifEvCutInserted: writeLocked, after the whole group is in the memdb and before db.seq is advanced:
+	// a = the sequence number following the group's last record, b = db.seq at this instant.
+	VerifEvCutInserted = 507
+	// VerifEvCutPublished: writeLocked, after db.addSeq: a = db.seq.
+	VerifEvCutPublished = 508
+	// VerifEvCutSetSeq: Transaction.Commit, after db.setSeq: a = the transaction's last sequence number.
+	VerifEvCutSetSeq = 509
+)
